@@ -137,7 +137,9 @@ def gen_module(mod, enc):
                 add(func, n, a, b, b'(not (' + data[a:b] + b'))', 'negate')
             if isinstance(n, (ast.Assign, ast.AugAssign, ast.Raise)) or (isinstance(n, ast.Expr) and isinstance(n.value, ast.Call)):
                 a, b = span(n)
-                add(func, n, a, b, b'pass', 'delete')
+                if not re.match(rb'(self\.|client\.|self\.ctxt\.)?(log|mplogger|logging|access_log|logger)\b', data[a:b]) \
+                        and not data[a:b].startswith(b'print('):
+                    add(func, n, a, b, b'pass', 'delete')
             if isinstance(n, ast.Return) and isinstance(n.value, ast.Constant) and isinstance(n.value.value, bool):
                 a, b = span(n.value)
                 add(func, n, a, b, b'False' if n.value.value else b'True', 'return')
@@ -175,6 +177,20 @@ def cmd_gen(args):
         good.append(mu)
     rnd = random.Random(args.seed)
     rnd.shuffle(good)
+    if args.per_function:
+        # stratified sample: at most k mutants per function, at most half of them statement deletions
+        seen, dels, keep = {}, {}, []
+        for mu in good:
+            f = mu['func']
+            if seen.get(f, 0) >= args.per_function:
+                continue
+            if mu['op'] == 'delete':
+                if dels.get(f, 0) >= (args.per_function + 1) // 2:
+                    continue
+                dels[f] = dels.get(f, 0) + 1
+            seen[f] = seen.get(f, 0) + 1
+            keep.append(mu)
+        good = keep
     if args.max:
         good = good[:args.max]
     anch = anchors()
@@ -245,12 +261,30 @@ def cmd_tests(args):
     print('%d of %d mutants keep the suite green' % (len(surv), len(muts)))
 
 
+COST = dict(C01=9, C02=54, C03=3, C04=66, C05=21, C06=11, C07=27, C08=30, C09=9, C10=69, C11=12, C12=20, C13=39, C14=9, C15=1,
+            C16=2, C17=64, C18=22, C19=1, C20=6)      # quick wall seconds at 16 processes, to order the runs
+_ENC = None
+
+
+def plan(mu):
+    """which checks to run for a mutant, in which order: every property that encodes the mutated function and is cheap,
+    plus the expensive ones whose anchors name the mutated lines; anchored first, then by cost; at most 6"""
+    global _ENC
+    if _ENC is None:
+        _ENC = encoded()
+    allp = _ENC.get(mu['func'], mu['props'])
+    prim = mu.get('primary') or []
+    cand = [p for p in allp if COST.get(p, 99) <= 30 or p in prim[:3]]
+    cand.sort(key=lambda p: (p not in prim, COST.get(p, 99)))
+    return cand[:6]
+
+
 def run_checks(job):
     mu, tier = job
     d = scratch(mu)
     res = {}
     try:
-        for p in mu['props']:
+        for p in plan(mu):
             try:
                 r = subprocess.run(['./check', p, '--tier', tier, '--no-evidence'], cwd=VERIF, capture_output=True, text=True, timeout=2400,
                                    env=dict(os.environ, VERIF_REPO=d, SX_REPLAY_DIR=os.path.join(d, 'replays'), SX_NPROC=os.environ.get('SX_NPROC', '5')))
@@ -308,7 +342,7 @@ def cmd_report(args):
 if __name__ == '__main__':
     ap = argparse.ArgumentParser()
     sub = ap.add_subparsers(dest='cmd')
-    g = sub.add_parser('gen'); g.add_argument('--seed', type=int, default=1); g.add_argument('--max', type=int, default=0); g.add_argument('--props', type=int, default=4)
+    g = sub.add_parser('gen'); g.add_argument('--seed', type=int, default=1); g.add_argument('--max', type=int, default=0); g.add_argument('--props', type=int, default=4); g.add_argument('--per-function', dest='per_function', type=int, default=0)
     t = sub.add_parser('tests'); t.add_argument('-j', type=int, default=8)
     c = sub.add_parser('checks'); c.add_argument('-j', type=int, default=3); c.add_argument('--tier', default='quick'); c.add_argument('--max', type=int, default=0)
     r = sub.add_parser('report'); r.add_argument('--all', action='store_true')
